@@ -278,6 +278,23 @@ func runC02(seed int64, n int, tier string, outDir string) (*Report, error) {
 		term := CoqItem(it)
 		cw.Add("("+term+", "+hxSum(out)+")", fmt.Sprintf("seed=%d index=%d", seed, i))
 		c02Native(it, out, rep, i)
+		// what is written for a value does not depend on package state: the exported variable DefaultLang (the tag the
+		// convenience constructors give new text) set to a language the value may hold - same bytes
+		if i%3 == 0 {
+			for _, dl := range []ap.LangRef{"fr", "en"} {
+				var out2 []byte
+				withDefaultLang(dl, func() {
+					defer func() { _ = recover() }()
+					out2, _ = it.(json.Marshaler).MarshalJSON()
+				})
+				rep.Evaluations++
+				rep.Count("config:DefaultLang")
+				if !bytes.Equal(out, out2) {
+					rep.Violate(Violation{Op: "MarshalJSON with DefaultLang = " + string(dl), Input: term, Expected: "the bytes written with the default setting: " + trunc(string(out), 300), Observed: trunc(string(out2), 300), Index: i})
+					c02Native(it, out2, rep, i)
+				}
+			}
+		}
 		hostile := false
 		for _, h := range hostilePool {
 			if strings.Contains(string(out), h) || strings.Contains(term, fmt.Sprintf("%x", h)) {
@@ -488,4 +505,12 @@ func runC02(seed int64, n int, tier string, outDir string) (*Report, error) {
 		return nil, err
 	}
 	return rep, nil
+}
+
+// withDefaultLang runs f with the package variable DefaultLang set to l and restores it.
+func withDefaultLang(l ap.LangRef, f func()) {
+	old := ap.DefaultLang
+	ap.DefaultLang = l
+	defer func() { ap.DefaultLang = old }()
+	f()
 }
